@@ -127,6 +127,9 @@ def fmt_value(fmt, r):
     raise GenFail('format ' + fmt)
 
 
+MARKUP_SEQS = [']]>', '<!--', '-->', '<![CDATA[', '&amp;', '&lt;', '&#60;', '&#x3C;', '<?', '?>', '</', '/>', '<b>', '">', "'>", '&;', '&#', ']]', '--']
+
+
 class Values(object):
     def __init__(self, avoid, flavor='plain', icvn='00401'):
         self.avoid = set(avoid)
@@ -154,6 +157,13 @@ class Values(object):
         if self.flavor == 'markup' and ' ' not in self.avoid and r.random() < .08:
             return ' ' * n          # an all-blank value satisfies an AN definition
         s = ''.join(r.choice(self.alpha) for _ in range(n))
+        if self.flavor == 'markup' and r.random() < .12:
+            # character sequences that mean something to an XML or HTML parser, not just single characters
+            seqs = [q for q in MARKUP_SEQS if len(q) <= n and not (set(q) & self.avoid)]
+            if seqs:
+                q = r.choice(seqs)
+                k = r.randint(0, n - len(q))
+                s = s[:k] + q + s[k + len(q):]
         if s.endswith(' '):
             s = s[:-1] + r.choice(self.base)
         if s.startswith(' ') and self.flavor != 'markup':
